@@ -74,6 +74,23 @@ def check_truncate(case):
     return fails, (path, len(x), tuple(sig))
 
 
+@kind("truncate-long")
+def check_truncate_long(case):
+    m, gk = case["len"], case["grid"]
+    fails, sig = check_truncate({"x": A.long_grid(m, gk), "y": A.long_values(m, "saw"), "left": case["left"], "right": case["right"],
+                                 "lr": False, "rr": False, "path": case["path"]})
+    for f in fails:
+        d = f.get("detail") or {}
+        if isinstance(d, dict):
+            for k in ("observed_y", "expected_y"):
+                d.pop(k, None)
+            for k in ("observed_x", "expected_x"):
+                if k in d and len(d[k]) > 8:
+                    d[k] = {"len": len(d[k]), "first": float(d[k][0]), "last": float(d[k][-1])}
+        f["key"] = dict(f["key"], long=True)
+    return fails, (sig if sig is None else (sig[0], m, sig[2]))
+
+
 @kind("slice-value")
 def check_slice_value(case):
     from traffic_weaver import Weaver
@@ -271,6 +288,49 @@ def harnesses(tier, seed):
         steps = [[0.0, l0, r0], [s1, l0 + s1, r0 + s1 + 0.25], [s2, l0 + s1 + s2 - 0.25, r0 + s1 + s2]]
         judge(ctx, check_truncate_sequence, {"x": x, "y": yv(len(x)), "steps": steps}, calls=3)
 
-    return [{"name": "truncate-same-array-edited-in-place", "body": trunc_seq_body},
+    def trunc_long_body(ctx):
+        m = ctx.choose(long_sizes, "len")
+        gk = ctx.choose(["uniform", "offset", "gaps"], "grid")
+        path = ctx.choose(["process", "weaver"], "path")
+        x = A.long_grid(m, gk)
+        y = A.long_values(m, "saw")
+        idx = A.interesting_indices(m, dense_to=20, subpath="", limit=26 if m <= 100 else 14)
+        pts = {x[0] - 1.0, x[-1] + 1.0}
+        for i in idx:
+            pts.add(x[i])
+            if i + 1 < m:
+                pts.add((x[i] + x[i + 1]) / 2)
+        pts = sorted(pts)
+        for l, r in itertools.combinations(pts, 2):
+            judge(ctx, check_truncate_long, {"len": m, "grid": gk, "left": l, "right": r, "path": path}, bulk=True,
+                  nontrivial=lambda s_: any(a or b for a, b in s_[2]))
+
+    def trunc_ulp_body(ctx):
+        """grids that are NOT exactly representable, bounds on / one ulp below / one ulp above every sample and at the short
+        decimal literal a user would type for it (0.3 for 0.30000000000000004)"""
+        import math
+        g = ctx.choose([gr for gr in grids if len(gr) <= 5], "grid")
+        iname, img = ctx.choose([("0.1x+0.3", lambda v: 0.1 * v + 0.3), ("0.1x-0.3", lambda v: 0.1 * v - 0.3), ("x/3-1", lambda v: v / 3.0 - 1.0),
+                                 ("linspace(-1,1)", None)], "image")
+        path = ctx.choose(["process", "weaver"], "path")
+        if img is None:
+            full = [float(v) for v in np.linspace(-1, 1, 8)]
+            x = [full[int(v)] for v in g]
+        else:
+            x = [img(v) for v in g]
+        y = yv(len(x))
+        pts = set()
+        for v in x:
+            pts.update([v, math.nextafter(v, -math.inf), math.nextafter(v, math.inf), round(v, 1), round(v, 2)])
+        pts = sorted(pts)
+        for l, r in itertools.combinations(pts, 2):
+            judge(ctx, check_truncate, {"x": x, "y": y, "left": l, "right": r, "lr": False, "rr": False, "path": path},
+                  bulk=True, nontrivial=lambda s_: any(a or b for a, b in s_[2]))
+
+    long_sizes = A.sizes(24 if quick else 50, 1100 if quick else 70000)
+    return [{"name": "truncate-long-series", "body": trunc_long_body,
+             "bound_text": "sizes up to %d (dense range, 2^k+1, around every integer constant of the code)" % long_sizes[-1]},
+            {"name": "truncate-bounds-one-ulp-around-samples", "body": trunc_ulp_body},
+            {"name": "truncate-same-array-edited-in-place", "body": trunc_seq_body},
             {"name": "slice-by-value-in-every-state", "body": slice_hist_body}, {"name": "truncate-by-value", "body": trunc_body}, {"name": "slice-by-value", "body": slice_body},
             {"name": "index-ranges", "body": index_body}]
